@@ -3,6 +3,7 @@ package model
 import (
 	"fmt"
 	"math"
+	"regexp"
 	"sort"
 	"strconv"
 	"strings"
@@ -45,6 +46,11 @@ var StrictZero bool
 func LineEq(exp, got string, hasObj bool) bool {
 	if exp == got {
 		return true
+	}
+	if StrictContainers {
+		// the implementation uses the container syntax the model writes (calibrated): only the
+		// text of numbers may differ, so the lines must agree once numerals are canonicalised
+		return canonNumerals(exp) == canonNumerals(got)
 	}
 	ea, ga := atoms(exp), atoms(got)
 	if len(ea) != len(ga) {
@@ -106,4 +112,24 @@ func clip(s string) string {
 		return strings.ToValidUTF8(s[:80], "") + "…"
 	}
 	return s
+}
+
+// StrictContainers: the implementation prints arrays and objects in exactly the concrete syntax
+// the model uses (calibrated by the checks on a few values); separators and brackets are then
+// compared literally.
+var StrictContainers bool
+
+var numeralRe = regexp.MustCompile(`[-+]?(?:[0-9]+\.?[0-9]*(?:[eE][-+]?[0-9]+)?|Inf|NaN)`)
+
+func canonNumerals(s string) string {
+	return numeralRe.ReplaceAllStringFunc(s, func(t string) string {
+		f, err := strconv.ParseFloat(t, 64)
+		if err != nil {
+			return t
+		}
+		if f == 0 && !StrictZero {
+			f = 0
+		}
+		return strconv.FormatFloat(f, 'g', -1, 64)
+	})
 }
